@@ -390,6 +390,7 @@ def gen_quality(draw):
     haps = G.gen_haplotypes(draw, len(variants), ploidy)
     sets = assign_sets(draw, len(variants), 3)
     linked = draw(st.integers(0, 2)) == 0
+    paired = draw(st.integers(0, 2)) == 0
     reads = []
     for i in range(draw(st.integers(3, 14))):
         h = draw(st.integers(0, ploidy - 1))
@@ -403,6 +404,17 @@ def gen_quality(draw):
                 if draw(st.integers(0, 5)) == 0:
                     errs[str(vi)] = True
         reads.append({"name": "q%d" % i, "hap": h, "start": s, "end": e, "errors": errs, "quals": quals})
+        if paired and e + 5 < L - 30 and draw(st.integers(0, 1)) == 0:
+            # second mate of a read pair, to the right of the first and not overlapping it; usual orientation is FR
+            s2 = draw(st.integers(e + 1, L - 30))
+            e2 = min(L, s2 + draw(st.integers(30, 150)))
+            m = {"start": s2, "end": e2, "errors": {}, "quals": {}, "orientation": draw(st.sampled_from(["FR", "FR", "FF", "RF"]))}
+            for vi, v in enumerate(variants):
+                if s2 <= v["pos"] < e2:
+                    m["quals"][str(vi)] = draw(st.sampled_from([5, 10, 10, 20, 30, 40]))
+                    if draw(st.integers(0, 3)) == 0:
+                        m["errors"][str(vi)] = True
+            reads[-1]["mate"] = m
         # linked reads: barcodes shared by reads of different haplotypes (the cloud is scored as a whole)
         if linked and draw(st.integers(0, 1)) == 0:
             reads[-1]["bx"] = draw(st.sampled_from(["B0", "B1", "B2"]))
@@ -444,46 +456,66 @@ class QualityPart:
         vcfgz = vm.bgzip_tabix(vcf)
         # reads with substitutions at SNV sites and per-base qualities
         recs = []
+        segments = []
         for r in case["reads"]:
-            s, e = r["start"], r["end"]
+            segments.append((r, r, 0))
+            if r.get("mate"):
+                segments.append((r, r["mate"], 1))
+        for r, seg, which in segments:
+            s, e = seg["start"], seg["end"]
             bases = list(seq[s:e])
             quals = [30] * (e - s)
             for vi, v in enumerate(variants):
                 if s <= v["pos"] < e:
                     al = case["haps"][r["hap"]][vi]
-                    if r["errors"].get(str(vi)):
+                    if seg["errors"].get(str(vi)):
                         al = 1 - al
                     bases[v["pos"] - s] = v["alt"] if al else v["ref"]
-                    quals[v["pos"] - s] = r["quals"][str(vi)]
+                    quals[v["pos"] - s] = seg["quals"][str(vi)]
             recs.append({"name": r["name"], "sample": "s", "chrom": "chr1", "pos": s, "cigar": "%dM" % (e - s), "seq": "".join(bases), "qual": quals})
             if r.get("bx"):
                 recs[-1]["tags"] = {"BX": r["bx"]}
+            if r.get("mate"):
+                o = r["mate"]["orientation"]
+                rev = {"FR": (0, 16), "FF": (0, 0), "RF": (16, 0)}[o][which]
+                mrev = {"FR": (32, 0), "FF": (0, 0), "RF": (0, 32)}[o][which]
+                recs[-1]["flag"] = 1 | 2 | (64 if which == 0 else 128) | rev | mrev
+                other = r["mate"] if which == 0 else r
+                recs[-1]["mate"] = {"chrom": "chr1", "pos": other["start"]}
         bam = G.write_bam(gcase, recs, os.path.join(d, "q.bam"))
         out = os.path.join(d, "qt.bam")
         run_tool(vcfgz, bam, out, None, {}, reference=False, ploidy=ploidy)
+        res = {}
         with pysam.AlignmentFile(out, check_sq=False) as f:
-            res = {a.query_name: phase_tags(a) for a in f.fetch(until_eof=True)}
+            for a in f.fetch(until_eof=True):
+                t = phase_tags(a)
+                if a.query_name in res and res[a.query_name] != t:
+                    ctx.violation("quality:mates-differ", "the two alignments of pair %s carry %r and %r" % (a.query_name, res[a.query_name], t))
+                res[a.query_name] = t
         nt = False
         own_scores = {}
         for r in case["reads"]:
-            s, e = r["start"], r["end"]
             scores = {}
+            # a read pair is one read: the alleles observed on both mates count (the mates never overlap here)
             for vi, v in enumerate(variants):
-                if not (s <= v["pos"] < e):
+                seg = next((x for x in [r] + ([r["mate"]] if r.get("mate") else []) if x["start"] <= v["pos"] < x["end"]), None)
+                if seg is None:
                     continue
                 al = [h[vi] for h in case["haps"]]
                 if len(set(al)) < 2:
                     continue
                 obs = case["haps"][r["hap"]][vi]
-                if r["errors"].get(str(vi)):
+                if seg["errors"].get(str(vi)):
                     obs = 1 - obs
                 first = min(i for i, x in enumerate(case["sets"]) if x == case["sets"][vi])
                 sid = variants[first]["pos"] + 1
                 sc = scores.setdefault(sid, [0] * ploidy)
                 for h in range(ploidy):
                     if al[h] == obs:
-                        sc[h] += r["quals"][str(vi)]
+                        sc[h] += seg["quals"][str(vi)]
             own_scores[r["name"]] = scores
+            if r.get("mate"):
+                ctx.label("pair-" + r["mate"]["orientation"])
         # a read cloud (same barcode; the whole contig lies within the default distance cut-off) is scored as one unit
         unit_scores = {}
         for r in case["reads"]:
